@@ -295,7 +295,13 @@ def check_load(ctx, F):
                 seq = []
                 loaded = False
                 saved = False
+                snapshot = None
+                pending = None
                 for ev in p:
+                    if ev[0] == "decl" and loaded and ev[1].get("init") is not None and "compoResumable" in _expr_txt(ev[1]["init"]) and not ev[1].get("ref"):
+                        snapshot = ev[1]["n"]          # a copy of the loaded marks taken before the commit
+                    if ev[0] == "write" and ev[2].endswith(".compoResumable") and snapshot and ev[3] == "L:" + snapshot:
+                        pending = None                 # ... and written back after it
                     if ev[0] == "call" and ev[2] is not None:
                         cf = F.fn(ev[2])
                         n, obj = cf["name"], ev[3] or ""
@@ -310,13 +316,17 @@ def check_load(ctx, F):
                             seq.append("clearQueue")
                         elif n == commit and obj.endswith("._apex"):
                             seq.append("commit")
-                            if loaded and "compoResumable" in E.star(ev[2]) and not saved:
+                            if loaded and "compoResumable" in E.star(ev[2]) and snapshot:
+                                pending = "%s rewrites compoResumable and the snapshot `%s` is not written back afterwards" % (F.fdisp(ev[2]), snapshot)
+                            elif loaded and "compoResumable" in E.star(ev[2]) and not saved:
                                 bad_keep = "%s is called after the resumable marks were loaded and may write compoResumable (exits record the sub-state " \
                                            "they leave, enters clear a mark equal to the entered prong): the loaded marks are clobbered" % F.fdisp(ev[2])
                         elif n in ("overwriteWith",) and any("compoResumable" in a for a in ev[4]):
                             saved = True
                         elif loaded and F.body(ev[2]) is not None and "compoResumable" in E.star(ev[2]) and n not in (commit,):
                             bad_keep = bad_keep or "%s may write compoResumable after the load" % F.fdisp(ev[2])
+                if pending:
+                    bad_keep = pending
                 want = ["clearRequests", "clearResumable", "read", "clearQueue", "commit"] if name == "load" else ["read", "commit"]
                 if seq != want:
                     bad_commit = "sequence %s, expected %s" % (seq, want)
